@@ -343,7 +343,7 @@ def estimate_stream_steps(run, ts, op):
             total += 2
             continue
         pr = engine.ALONE.parse(text, None, "ast", False, "text")
-        total += pr["toks"] + 8
+        total += pr["gates"] + 8
         if pr["kind"] == "doc":
             cr = engine.ALONE.compile(text, None, p)
             total += (len(cr["norm"]) if cr["kind"] == "pickles" else 1)
